@@ -700,8 +700,9 @@ class Interp:
                 r = n * 2
                 st.append(('num', [r]))
             else:
-                # halving: both truncation toward zero and floor are accepted for negative odd values
-                st.append(('num', sorted({(abs(n) // 2) * (1 if n >= 0 else -1), n // 2})))
+                # "2DIV" is division by two: the same signed-integer division OP_DIV denotes (quotient truncated toward
+                # zero, as in C++ and in the original implementation's sign-magnitude halving), so -3 -> -1, -1 -> 0
+                st.append(('num', [(abs(n) // 2) * (1 if n >= 0 else -1)]))
         elif o in (OP_MUL, OP_DIV, OP_MOD, OP_LSHIFT, OP_RSHIFT):
             need(2)
             a = self.num(st[-2], 8)
